@@ -9,25 +9,37 @@
    every snapshot slot, and transcriptions of leaf/extension/branch set and delete that thread
    the heap and decide "in place or copy" exactly where the code does.
 
+   Nodes also have the persistence states of the code: a frozen node that was written by Flush is
+   FLUSHED ("X"); ClearCache (compact) replaces flushed nodes by hash references and rewires the
+   child pointers of the nodes above them in place (also of frozen nodes: their content does
+   not change); a hash reference is realized from the database (one node, its children being
+   hash references again) when set/delete/get walk through it; a reloaded trie starts as a
+   single hash reference.  `db` is the set of node terms in the database.
+
    Every action is the conjunction of the MPT action (which drives kv, trie, snaps) with the
    heap update, so the invariants below state the refinement: the tree read from the heap at
    the mutable root is the value-level trie, the tree read at a snapshot root is the value the
    snapshot had when it was taken, and a frozen node never changes. *)
 EXTENDS MPT
-VARIABLES heap,     \* Seq(node)  address = index; node = [t, k, v, c, n, st]  st = "D" dirty | "F" frozen
+VARIABLES heap,     \* Seq(node)  address = index; node = [t, k, v, c, n, st, ref]
+                    \* st = "D" dirty | "F" frozen | "X" flushed;  t = "H": hash reference to the node term `ref`
           mroot,    \* address of the mutable trie's root (0 = nil)
-          sroots    \* [1..MaxSnaps -> address]
-hvars == <<heap, mroot, sroots>>
-allvars == <<kv, trie, snaps, nops, hist, heap, mroot, sroots>>
+          sroots,   \* [1..MaxSnaps -> address]
+          db        \* node terms stored in the database
+hvars == <<heap, mroot, sroots, db>>
+allvars == <<kv, trie, snaps, nops, hist, heap, mroot, sroots, db>>
 
 NoC == [i \in 0..W-1 |-> 0]
-HL(k, v) == [t |-> "L", k |-> k, v |-> v, c |-> NoC, n |-> 0, st |-> "D"]
-HE(k, n) == [t |-> "E", k |-> k, v |-> NoVal, c |-> NoC, n |-> n, st |-> "D"]
-HB(c, v) == [t |-> "B", k |-> <<>>, v |-> v, c |-> c, n |-> 0, st |-> "D"]
+HL(k, v) == [t |-> "L", k |-> k, v |-> v, c |-> NoC, n |-> 0, st |-> "D", ref |-> Nil]
+HE(k, n) == [t |-> "E", k |-> k, v |-> NoVal, c |-> NoC, n |-> n, st |-> "D", ref |-> Nil]
+HB(c, v) == [t |-> "B", k |-> <<>>, v |-> v, c |-> c, n |-> 0, st |-> "D", ref |-> Nil]
+HRef(t) == [t |-> "H", k |-> <<>>, v |-> NoVal, c |-> NoC, n |-> 0, st |-> "X", ref |-> t]
+Flushed(x) == [x EXCEPT !.st = "X"]
 RECURSIVE Tree(_, _)
 Tree(h, a) == IF a = 0 THEN Nil
               ELSE LET x == h[a] IN
-                   CASE x.t = "L" -> Leaf(x.k, x.v)
+                   CASE x.t = "H" -> x.ref
+                     [] x.t = "L" -> Leaf(x.k, x.v)
                      [] x.t = "E" -> Ext(x.k, Tree(h, x.n))
                      [] x.t = "B" -> [t |-> "B", c |-> [i \in 0..W-1 |-> Tree(h, x.c[i])], v |-> x.v]
 Alloc(h, x) == [h |-> Append(h, x), a |-> Len(h) + 1]
@@ -36,9 +48,21 @@ Upd(h, a, x) == IF h[a].st = "D" THEN [h |-> [h EXCEPT ![a] = x], a |-> a] ELSE 
 Res(h, a, d) == [h |-> h, a |-> a, d |-> d]
 Set1(c, i, a) == [c EXCEPT ![i] = a]
 
+\* realize a hash reference: one node read from the database (state flushed), its children are hash references
+RECURSIVE RefCh(_, _, _, _)
+RefCh(h, t, i, c) == IF i = W THEN [h |-> h, c |-> c]
+                     ELSE IF t.c[i] = Nil THEN RefCh(h, t, i + 1, c)
+                     ELSE LET r == Alloc(h, HRef(t.c[i])) IN RefCh(r.h, t, i + 1, Set1(c, i, r.a))
+Realize(h, a) ==
+  LET t == h[a].ref IN
+  CASE t.t = "L" -> Alloc(h, Flushed(HL(t.k, t.v)))
+    [] t.t = "E" -> LET r == Alloc(h, HRef(t.n)) IN Alloc(r.h, Flushed(HE(t.k, r.a)))
+    [] t.t = "B" -> LET r == RefCh(h, t, 0, NoC) IN Alloc(r.h, Flushed(HB(r.c, t.v)))
+
 RECURSIVE HSet(_, _, _, _)
 HSet(h, a, keys, o) ==
   IF a = 0 THEN LET r == Alloc(h, HL(keys, o)) IN Res(r.h, r.a, TRUE)
+  ELSE IF h[a].t = "H" THEN LET r == Realize(h, a) IN HSet(r.h, r.a, keys, o)
   ELSE LET n == h[a] IN
   CASE n.t = "L" ->
         LET cnt == CommonLen(keys, n.k)  match == (keys = n.k) IN
@@ -99,14 +123,17 @@ Collapse(h, a) ==
   ELSE IF live = {} THEN LET r == Alloc(h, HL(<<>>, br.v)) IN Res(r.h, r.a, TRUE)
   ELSE IF br.v # NoVal THEN Res(h, a, TRUE)
   ELSE LET idx == CHOOSE i \in live : TRUE
-           al == br.c[idx]
-           x == h[al] IN
-       CASE x.t = "E" -> LET r == Upd(h, al, HE(<<idx>> \o x.k, x.n)) IN Res(r.h, r.a, TRUE)
-         [] x.t = "L" -> LET r == Upd(h, al, HL(<<idx>> \o x.k, x.v)) IN Res(r.h, r.a, TRUE)
-         [] x.t = "B" -> LET r == Alloc(h, HE(<<idx>>, al)) IN Res(r.h, r.a, TRUE)
+           rz == IF h[br.c[idx]].t = "H" THEN Realize(h, br.c[idx]) ELSE [h |-> h, a |-> br.c[idx]]   \* alive.realize(m)
+           h1 == rz.h
+           al == rz.a
+           x == h1[al] IN
+       CASE x.t = "E" -> LET r == Upd(h1, al, HE(<<idx>> \o x.k, x.n)) IN Res(r.h, r.a, TRUE)
+         [] x.t = "L" -> LET r == Upd(h1, al, HL(<<idx>> \o x.k, x.v)) IN Res(r.h, r.a, TRUE)
+         [] x.t = "B" -> LET r == Alloc(h1, HE(<<idx>>, al)) IN Res(r.h, r.a, TRUE)
 RECURSIVE HDel(_, _, _)
 HDel(h, a, keys) ==
   IF a = 0 THEN Res(h, 0, FALSE)
+  ELSE IF h[a].t = "H" THEN LET r == Realize(h, a) IN HDel(r.h, r.a, keys)
   ELSE LET n == h[a] IN
   CASE n.t = "L" -> IF keys = n.k THEN Res(h, 0, TRUE) ELSE Res(h, a, FALSE)
     [] n.t = "E" ->
@@ -130,24 +157,67 @@ HDel(h, a, keys) ==
 
 \* freeze: dirty nodes reachable from a become frozen (stops at nodes that are frozen already)
 RECURSIVE Reach(_, _)
-Reach(h, a) == IF a = 0 \/ h[a].st = "F" THEN {}
+Reach(h, a) == IF a = 0 \/ h[a].st # "D" THEN {}
                ELSE {a} \cup Reach(h, h[a].n) \cup UNION {Reach(h, h[a].c[i]) : i \in 0..W-1}
 Freeze(h, a) == LET S == Reach(h, a) IN [i \in 1..Len(h) |-> IF i \in S THEN [h[i] EXCEPT !.st = "F"] ELSE h[i]]
 
+\* Flush of a snapshot: every node below the root that is not flushed yet is written and becomes flushed
+RECURSIVE Unflushed(_, _)
+Unflushed(h, a) == IF a = 0 \/ h[a].st = "X" THEN {}
+                   ELSE {a} \cup Unflushed(h, h[a].n) \cup UNION {Unflushed(h, h[a].c[i]) : i \in 0..W-1}
+MarkFlushed(h, a) == LET S == Unflushed(h, a) IN [i \in 1..Len(h) |-> IF i \in S THEN Flushed(h[i]) ELSE h[i]]
+RECURSIVE SubTerms(_)
+SubTerms(t) == IF t = Nil THEN {}
+               ELSE {t} \cup (CASE t.t = "L" -> {}
+                                [] t.t = "E" -> SubTerms(t.n)
+                                [] t.t = "B" -> UNION {SubTerms(t.c[i]) : i \in 0..W-1})
+\* ClearCache = compact: a flushed node becomes a hash reference; above it the child pointers are rewired in place
+RECURSIVE Compact(_, _), CompactCh(_, _, _)
+CompactCh(h, a, i) == IF i = W THEN h
+                      ELSE LET r == Compact(h, h[a].c[i]) IN CompactCh([r.h EXCEPT ![a].c[i] = r.a], a, i + 1)
+Compact(h, a) ==
+  IF a = 0 \/ h[a].t = "H" THEN [h |-> h, a |-> a]
+  ELSE IF h[a].st = "X" THEN Alloc(h, HRef(Tree(h, a)))
+  ELSE CASE h[a].t = "L" -> [h |-> h, a |-> a]
+         [] h[a].t = "E" -> LET r == Compact(h, h[a].n) IN [h |-> [r.h EXCEPT ![a].n = r.a], a |-> a]
+         [] h[a].t = "B" -> [h |-> CompactCh(h, a, 0), a |-> a]
+\* Get through the heap: below a hash reference the node terms come from the database
+RECURSIVE HGet(_, _, _)
+HGet(h, a, keys) ==
+  IF a = 0 THEN NoVal
+  ELSE LET n == h[a] IN
+  CASE n.t = "H" -> IF SubTerms(n.ref) \subseteq db THEN GetN(n.ref, keys) ELSE -1       \* -1: node missing in the database
+    [] n.t = "L" -> IF keys = n.k THEN n.v ELSE NoVal
+    [] n.t = "E" -> IF CommonLen(keys, n.k) < Len(n.k) THEN NoVal ELSE HGet(h, n.n, Rest(keys, Len(n.k) + 1))
+    [] n.t = "B" -> IF keys = <<>> THEN n.v ELSE HGet(h, n.c[keys[1]], Tail(keys))
+
 -----------------------------------------------------------------------------
-HInit == Init /\ heap = <<>> /\ mroot = 0 /\ sroots = [i \in 1..MaxSnaps |-> 0]
+HInit == Init /\ heap = <<>> /\ mroot = 0 /\ sroots = [i \in 1..MaxSnaps |-> 0] /\ db = {}
 HNext ==
   \/ \E k \in Keys, v \in Vals : /\ Can /\ Set(k, v)
                                  /\ LET r == HSet(heap, mroot, k, v) IN heap' = r.h /\ mroot' = r.a
-                                 /\ UNCHANGED sroots
+                                 /\ UNCHANGED <<sroots, db>>
   \/ \E k \in Keys : /\ Can /\ Del(k)
                      /\ LET r == HDel(heap, mroot, k) IN heap' = r.h /\ mroot' = IF r.d THEN r.a ELSE mroot
-                     /\ UNCHANGED sroots
+                     /\ UNCHANGED <<sroots, db>>
   \/ \E s \in 1..MaxSnaps : /\ Can /\ Snap(s)
                             /\ heap' = Freeze(heap, mroot) /\ sroots' = [sroots EXCEPT ![s] = mroot]
-                            /\ UNCHANGED mroot
+                            /\ UNCHANGED <<mroot, db>>
   \/ \E s \in 1..MaxSnaps : /\ Can /\ Reset(s)
-                            /\ mroot' = sroots[s] /\ UNCHANGED <<heap, sroots>>
+                            /\ mroot' = sroots[s] /\ UNCHANGED <<heap, sroots, db>>
+  \/ \E s \in 1..MaxSnaps : /\ Can /\ Flush(s)
+                            /\ heap' = MarkFlushed(heap, sroots[s]) /\ db' = db \cup SubTerms(Tree(heap, sroots[s]))
+                            /\ UNCHANGED <<mroot, sroots>>
+  \/ \E s \in 0..MaxSnaps : /\ Can /\ ClearCache(s)
+                            /\ LET r == Compact(heap, IF s = 0 THEN mroot ELSE sroots[s]) IN
+                               /\ heap' = r.h
+                               /\ mroot' = IF s = 0 THEN r.a ELSE mroot
+                               /\ sroots' = IF s = 0 THEN sroots ELSE [sroots EXCEPT ![s] = r.a]
+                            /\ UNCHANGED db
+  \/ \E s \in 1..MaxSnaps : /\ Can /\ Reload(s)          \* NewMutable(db, root hash of the flushed snapshot)
+                            /\ IF snaps[s].trie = Nil THEN heap' = heap /\ mroot' = 0
+                               ELSE LET r == Alloc(heap, HRef(snaps[s].trie)) IN heap' = r.h /\ mroot' = r.a
+                            /\ UNCHANGED <<sroots, db>>
 HSpec == HInit /\ [][HNext]_allvars
 
 -----------------------------------------------------------------------------
@@ -157,5 +227,11 @@ RefinesMPT == Tree(heap, mroot) = trie
 SnapshotIsolated == \A s \in 1..MaxSnaps : Tree(heap, sroots[s]) = snaps[s].trie
 \* everything reachable from a snapshot root is frozen, and frozen nodes never change
 SnapshotFrozen == \A s \in 1..MaxSnaps : Reach(heap, sroots[s]) = {}
-FrozenImmutable == [][\A a \in 1..Len(heap) : heap[a].st = "F" => heap'[a] = heap[a]]_allvars
+\* a node that is not dirty keeps its content for ever (compaction may rewire its child pointers, nothing else)
+FrozenImmutable == [][\A a \in 1..Len(heap) : heap[a].st # "D" => (Tree(heap', a) = Tree(heap, a) /\ heap'[a].st # "D")]_allvars
+\* everything a hash reference or a flushed node stands for is in the database: flush/clear/reload never lose data
+Resolvable == \A a \in 1..Len(heap) : heap[a].st = "X" => SubTerms(Tree(heap, a)) \subseteq db
+\* lookups through the heap (realizing from the database where the cache was dropped) return the map
+GetThroughCache == /\ \A k \in Keys : HGet(heap, mroot, k) = kv[k]
+                   /\ \A s \in 1..MaxSnaps : \A k \in Keys : HGet(heap, sroots[s], k) = snaps[s].kv[k]
 =============================================================================
